@@ -18,7 +18,7 @@ from vf import run as hrun
 from vf.core import InfraError
 
 LEVEL = "model_checking"
-READY = False
+READY = True
 TECHNIQUE = ("TLC model checking of Containers.tla (shadow state machine of dvector/uivector/ivector/strvector/matrix/tensor/dvectorlist, "
              "one action per API call; shape invariants and guard/frame/copy/growth/shrink laws) + replay of TLC-simulated operation histories "
              "against the ASan/UBSan build with the spec's post-state compared after every call")
@@ -59,10 +59,10 @@ VEC_ACTS = {"dv": ["VNew", "VInit", "VDel", "VResize", "VAppend", "VRemoveAt", "
             "uv": ["VNew", "VInit", "VDel", "VResize", "VAppend", "VRemoveAt", "VExtend", "VSet", "VSetOor", "VGet", "VGetOor", "VHas", "VIndexOf", "VFill", "VSort"],
             "iv": ["VNew", "VInit", "VDel", "VAppend", "VRemoveAt", "VExtend", "VSet", "VSetOor", "VGet", "VGetOor", "VHas", "VFill"]}
 GROUP_PREFIX = {"sv": "Sv", "mx": "Mx", "tn": "Tn", "dl": "Dl"}
-MC_QUICK = [("dv", 2, [0, 1, 2], 7, 2), ("uv", 2, [0, 1, 2], 7, 2), ("iv", 2, [0, 1, 2], 7, 2), ("sv", 2, [0, 1, 2], 6, 2),
-            ("dl", 2, [0, 1, 2], 6, 2), ("mx", 2, [0, 1, 2], 4, 4), ("tn", 2, [0, 1], 4, 4)]
-MC_THOROUGH = [("dv", 4, [0, 1, 2], 7, 3), ("uv", 4, [0, 1, 2], 7, 3), ("iv", 4, [0, 1, 2], 7, 3), ("sv", 3, [0, 1, 2], 6, 3),
-               ("dl", 3, [0, 1, 2], 7, 3), ("mx", 2, [0, 1, 2], 6, 8), ("tn", 2, [0, 1, 2], 5, 8)]
+MC_QUICK = [("dv", 2, [0, 1, 2], 7, 2), ("uv", 2, [0, 1, 2], 7, 2), ("iv", 2, [0, 1, 2], 7, 2), ("sv", 2, [0, 1, 2], 5, 2),
+            ("dl", 2, [0, 1, 2], 5, 2), ("mx", 2, [0, 1, 2], 4, 4), ("tn", 2, [0, 1], 4, 4)]
+MC_THOROUGH = [("dv", 3, [0, 1, 2], 7, 2), ("uv", 3, [0, 1, 2], 7, 2), ("iv", 3, [0, 1, 2], 7, 2), ("sv", 3, [0, 1, 2], 5, 2),
+               ("dl", 3, [0, 1, 2], 6, 2), ("mx", 2, [0, 1, 2], 5, 8), ("tn", 2, [0, 1, 2], 4, 8)]
 INVARIANTS = ["Shape", "TypeOK", "DeadIsEmpty", "KindsOff", "DepthBound"]
 LAWS = ["GuardLaw", "FrameLaw", "OorLaw", "CopyLaw", "GrowthLaw", "ShrinkLaw"]
 
@@ -88,6 +88,7 @@ def model_check(ctx, rd):
     for row, r in zip(table, results):
         g, maxdim, vals, depth, _ = row
         ctx.add_tlc(r, "mc_%s" % g)
+        ctx.steps["mc_%s" % g]["coverage"] = {a: list(v) for a, v in r.coverage.items() if v[1] > 0}
         if not r.ok:
             # a counterexample of the model alone is never reported as a violation of the code (DESIGN section 4)
             raise InfraError("Containers.tla (%s): %s fails in the model itself:\n%s" % (g, r.violation, r.trace_text[:2500]))
@@ -124,33 +125,30 @@ def _gen_plan(ctx):
     return plan
 
 
-def generate(ctx, rd):
-    plan = _gen_plan(ctx)
+def gen_one(ctx, rd, i, kinds, num, maxdim):
+    """one simulate-mode TLC run -> (TlcResult without its text, list of histories)"""
+    cfg = tlc.write_cfg(os.path.join(rd, "GEN_Containers_%d.cfg" % i), spec="GenSpec",
+                        constants=dict(Pool='{"a", "b", "c", "d"}', MaxDim=maxdim, Vals={0, 1, 2, 3}, Kinds=_kinds_cfg(kinds), Depth=40),
+                        constraints=["Emit"], deadlock=False)
+    r = tlc.run("Containers", cfg, workers=1, timeout=1500, simulate="num=%d" % num, depth=40, seed=(ctx.seed + 7919 * i) & 0x7FFFFFFF, xmx="3g")
+    if not r.ok:
+        raise InfraError("generator run failed: %s" % r.violation)
+    hs = split_histories(r.emits)
+    r.emits, r.out = [], ""
+    if len(hs) < num:
+        raise InfraError("generator produced %d histories, wanted %d (kinds %s)" % (len(hs), num, kinds))
+    return r, hs[:num]
 
-    def one(arg):
-        i, (kinds, num, maxdim) = arg
-        cfg = tlc.write_cfg(os.path.join(rd, "GEN_Containers_%d.cfg" % i), spec="GenSpec",
-                            constants=dict(Pool='{"a", "b", "c", "d"}', MaxDim=maxdim, Vals={0, 1, 2, 3}, Kinds=_kinds_cfg(kinds), Depth=40),
-                            constraints=["Emit"], deadlock=False)
-        r = tlc.run("Containers", cfg, workers=1, timeout=1500, simulate="num=%d" % num, depth=40, seed=(ctx.seed + 7919 * i) & 0x7FFFFFFF, xmx="3g")
-        hs = split_histories(r.emits)
-        r.emits, r.out = [], ""
-        return r, hs
 
-    histories = []
-    gen_states = 0
-    with ThreadPoolExecutor(max(1, min(len(plan), JOBS))) as ex:
-        for (kinds, num, maxdim), (r, hs) in zip(plan, ex.map(one, enumerate(plan))):
-            if not r.ok:
-                raise InfraError("generator run failed: %s" % r.violation)
-            if len(hs) < num:
-                raise InfraError("generator produced %d histories, wanted %d (kinds %s)" % (len(hs), num, kinds))
-            histories += hs[:num]
-            gen_states += sum(len(h) for h in hs[:num])
-    ctx.steps["gen"] = dict(runs=len(plan), histories=len(histories), operations=gen_states, depth=40, pool=4,
-                            plan=[dict(kinds=k, histories=n, MaxDim=d) for k, n, d in plan])
-    ctx.cov["transitions"] += gen_states
-    return histories
+def refinement_run(ctx, rd):
+    """simulated GenSpec behaviours checked against [][Next]_vars: the generator only produces steps of the model-checked relation"""
+    cfg = tlc.write_cfg(os.path.join(rd, "REF_Containers.cfg"), spec="GenSpec",
+                        constants=dict(Pool='{"a", "b", "c"}', MaxDim=3, Vals={0, 1}, Kinds=_kinds_cfg(ALL_KINDS), Depth=40),
+                        invariants=["Shape", "TypeOK", "DeadIsEmpty"], properties=["GenRefinesNext"] + LAWS, deadlock=False)
+    r = tlc.run("Containers", cfg, workers=1, timeout=1500, simulate="num=%d" % (10 if ctx.quick else 100), depth=40, seed=ctx.seed & 0x7FFFFFFF, xmx="3g")
+    if not r.ok:
+        raise InfraError("GenSpec leaves the model-checked next-state relation or breaks a law: %s\n%s" % (r.violation, r.trace_text[:2000]))
+    return r
 
 
 def split_histories(emits):
@@ -166,7 +164,7 @@ def split_histories(emits):
             hs.append(cur)
         elif cur is None or lvl != prev + 1:
             raise InfraError("generator output out of order: level %s after %s (one successor per action expected)" % (lvl, prev))
-        cur.append(dict(op=rec["op"], post=rec["post"]))
+        cur.append(dict(op=rec["op"], post={k: v for k, v in rec["post"].items() if isinstance(v, dict)}))
         prev = lvl
     return hs
 
@@ -185,14 +183,14 @@ VEC_NAMES = {
 }
 LAYOUT = {
     "initStrVector": "x:s", "NewStrVector": "x:s n:i", "DelStrVector": "x:s", "StrVectorResize": "x:s n:i", "StrVectorAppend": "x:s s:S", "StrVectorAppendInt": "x:s v:i",
-    "StrVectorAppendDouble": "x:s v:i", "setStr": "x:s i:i s:S", "getStr": "x:s i:i ret:T", "StrVectorExtend": "a:s b:s y:s",
+    "StrVectorAppendDouble": "x:s v:i", "setStr": "x:s i:i s:S", "getStr": "x:s i:i rets:T", "StrVectorExtend": "a:s b:s y:s",
     "initMatrix": "x:s", "NewMatrix": "x:s r:i c:i", "DelMatrix": "x:s", "ResizeMatrix": "x:s r:i c:i", "MatrixSet": "x:s v:i", "MatrixCopy": "src:s dst:s",
     "setMatrixValue": "x:s i:i j:i v:i", "getMatrixValue": "x:s i:i j:i ret:R", "getMatrixRow": "x:s i:i y:s?", "getMatrixColumn": "x:s j:i y:s?",
-    "MatrixAppendRow": "x:s v:V", "MatrixAppendCol": "x:s v:V", "MatrixAppendUIRow": "x:s v:V", "MatrixAppendUICol": "x:s v:V", "MatrixDeleteRowAt": "x:s k:i", "MatrixDeleteColAt": "x:s k:i",
+    "MatrixAppendRow": "x:s vs:V", "MatrixAppendCol": "x:s vs:V", "MatrixAppendUIRow": "x:s vs:V", "MatrixAppendUICol": "x:s vs:V", "MatrixDeleteRowAt": "x:s k:i", "MatrixDeleteColAt": "x:s k:i",
     "initTensor": "x:s", "NewTensor": "x:s n:i", "NewTensorMatrix": "x:s k:i r:i c:i", "AddTensorMatrix": "x:s r:i c:i", "DelTensor": "x:s",
-    "setTensorValue": "x:s k:i i:i j:i v:i", "getTensorValue": "x:s k:i i:i j:i ret:R", "TensorAppendMatrix": "x:s r:i c:i f:F", "TensorAppendColumn": "x:s k:i v:V",
+    "setTensorValue": "x:s k:i i:i j:i v:i", "getTensorValue": "x:s k:i i:i j:i ret:R", "TensorAppendMatrix": "x:s r:i c:i f:F", "TensorAppendColumn": "x:s k:i vs:V",
     "TensorSet": "x:s v:i", "TensorCopy": "src:s dst:s",
-    "initDVectorList": "x:s", "NewDVectorList": "x:s n:i", "DVectorListAppend": "x:s v:V", "DelDVectorList": "x:s",
+    "initDVectorList": "x:s", "NewDVectorList": "x:s n:i", "DVectorListAppend": "x:s vs:V", "DelDVectorList": "x:s",
 }
 for _k, _names in VEC_NAMES.items():
     for _call, _name in _names.items():
@@ -383,42 +381,95 @@ def _is_size_case(st):
     return st["op"]["rel"] in ("shorter", "longer", "zero", "diff-shape", "src-empty", "out") or st["op"]["oor"]
 
 
-def judge(ctx, histories, results):
-    opmix, relmix, failures = collections.Counter(), collections.Counter(), []
-    okh = aborts = rets = 0
+class Tally:
+    """what is kept of a replayed chunk once its histories are dropped"""
+    def __init__(self):
+        self.opmix, self.relmix, self.gen_ops = collections.Counter(), collections.Counter(), collections.Counter()
+        self.cases = []          # (key, nontrivial, calls executed)
+        self.failures = []       # (step, hid, result line, history prefix, is_cleanup)
+        self.ok = self.aborts = self.rets = self.histories = self.calls_generated = 0
+        self.samples = []
+
+    def add(self, other):
+        self.opmix.update(other.opmix); self.relmix.update(other.relmix); self.gen_ops.update(other.gen_ops)
+        self.cases += other.cases; self.failures += other.failures; self.samples += other.samples
+        self.ok += other.ok; self.aborts += other.aborts; self.rets += other.rets
+        self.histories += other.histories; self.calls_generated += other.calls_generated
+
+
+def summarise(histories, results, base=0):
+    t = Tally()
     for hid, steps in enumerate(histories):
         res = results[hid]
         done = res["ops"]
+        t.histories += 1
+        t.calls_generated += len(steps)
+        for st in steps:
+            t.gen_ops[st["op"]["name"]] += 1
         for st in steps[:done]:
-            opmix[st["op"]["name"]] += 1
+            t.opmix[st["op"]["name"]] += 1
             if st["op"]["rel"] != "na":
-                relmix["%s:%s" % (st["op"]["name"], st["op"]["rel"])] += 1
+                t.relmix["%s:%s" % (st["op"]["name"], st["op"]["rel"])] += 1
         key = hashlib.sha1(json.dumps([s["op"] for s in steps], sort_keys=True).encode()).hexdigest()[:16]
-        ctx.case(key, any(_is_size_case(s) for s in steps[:done]), n=max(done, 1))
-        aborts += res["oor_abort"]
-        rets += res["oor_ret"]
+        t.cases.append((key, any(_is_size_case(s) for s in steps[:done]), max(done, 1)))
+        t.aborts += res["oor_abort"]
+        t.rets += res["oor_ret"]
         if res["res"] == "ok":
-            okh += 1
+            t.ok += 1
         else:
-            failures.append((res.get("step", 0), hid, res))
-    failures.sort(key=lambda f: (f[0], f[1]))
-    notjudged = 0
-    for step, hid, res in failures:
+            step = res.get("step", 0)
+            cleanup = res.get("rel") == "cleanup"
+            t.failures.append((step, base + hid, res, steps if cleanup else steps[:step], cleanup))
+    if histories:
+        t.samples.append(dict(history=base, calls=[dict(name=s["op"]["name"], rel=s["op"]["rel"], a=s["op"]["a"]) for s in histories[0][:6]]))
+    return t
+
+
+def report(ctx, t):
+    """turn the failures of a tally into violations (shortest prefix first, one per signature)"""
+    for key, nontrivial, n in t.cases:
+        ctx.case(key, nontrivial, n=n)
+    notjudged = nfail = 0
+    for step, hid, res, prefix, cleanup in sorted(t.failures, key=lambda f: (f[0], f[1])):
         kind, text = classify(res)
         if kind.startswith("ubsan:") and "null pointer passed as argument" in res.get("err", "") and res.get("op") in ("DVectorSort", "SortUIVector"):
             # qsort(NULL, 0, ...) on a vector made by init*: UBSan's nonnull-attribute check, no memory is touched - outside what C14 states
             notjudged += 1
             continue
-        cleanup = res.get("rel") == "cleanup"
+        nfail += 1
         sig = "CONTAINER:%s:%s:%s" % (res.get("op", "?"), res.get("rel", "?"), kind)
-        prefix = histories[hid] if cleanup else histories[hid][:step]
-        what = "history %d, call %d of %d%s: %s(%s) [%s] - %s" % (
-            hid, step, len(histories[hid]), " (deleting the remaining containers)" if cleanup else "", res.get("op"),
-            "" if cleanup else json.dumps(prefix[-1]["op"]["a"], sort_keys=True) if prefix else "", res.get("rel"), text)
+        what = "history %d, call %d%s: %s(%s) [%s] - %s" % (
+            hid, step, " (deleting the remaining containers)" if cleanup else "", res.get("op"),
+            "" if cleanup or not prefix else json.dumps(prefix[-1]["op"]["a"], sort_keys=True), res.get("rel"), text)
         ctx.violation(sig, what, dict(kind="history", history=prefix, failed_step=step, harness=dict(res=res["res"], what=res.get("what", ""))))
     if notjudged:
         ctx.cov["not_judged"] = dict(zero_length_qsort_on_null_data=notjudged)
-    return okh, opmix, relmix, aborts, rets, len(failures) - notjudged
+    return nfail
+
+
+def binding_selftest(ctx, rd, exe, histories, results):
+    """corrupt one expected cell of a history that replays cleanly: the harness must report a state mismatch at that call"""
+    import copy
+    for hid, h in enumerate(histories):
+        if results[hid]["res"] != "ok":
+            continue
+        for n, st in enumerate(h):
+            for kind in ("dv", "uv", "iv"):
+                p = st["post"].get(kind)
+                if isinstance(p, dict):
+                    for slot, v in p.items():
+                        if v["live"] and isinstance(v["d"], list) and v["d"]:
+                            bad = copy.deepcopy(h)
+                            bad[n]["post"][kind][slot]["d"][-1] += 1
+                            r = replay_histories(ctx, rd, exe, [bad], label="selftest", parts=1)[0]
+                            if r["res"] != "mismatch" or r["step"] != n + 1:
+                                raise InfraError("binding self-test: a corrupted expected cell at call %d was not reported (%s)" % (n + 1, r))
+                            ctx.steps["binding_selftest"] = dict(history=hid, call=n + 1, corrupted="%s[%s] last cell +1" % (kind, slot), reported=r["what"])
+                            return
+    if ctx.violations:
+        ctx.note("binding self-test skipped: no history of the first chunk replayed cleanly")
+        return
+    raise InfraError("binding self-test: no clean history with a non-empty vector to corrupt")
 
 
 def run(ctx):
@@ -426,7 +477,7 @@ def run(ctx):
         "TLC explores Containers.tla exhaustively only within the stated constants (pool 2, dims/values/depth per family in coverage.steps)",
         "the implementation is bound to the model by replaying sampled TLC-generated histories (counts in coverage.steps.gen), not exhaustively",
         "ASan/UBSan is the monitor for reads/writes outside owned memory, use after free and double free; the harness compares liveness, dims, every cell and pointer ownership after every call",
-        "out-of-range accessors are accepted when they return with the state unchanged (and the documented sentinel for getMatrixValue/getTensorValue/getMatrixRow/getMatrixColumn) or abort() cleanly",
+        "out-of-range accessors are accepted when they return with the state unchanged (NULL for getMatrixRow/getMatrixColumn, any value for the scalar getters) or abort() cleanly; a sanitizer report or a changed state is a violation",
         "operations outside the alphabet (coverage.excluded_ops) are not judged",
     ]
     ctx.cov["excluded_ops"] = EXCLUDED_OPS
@@ -435,14 +486,39 @@ def run(ctx):
         lib = build.build_lib("san")
         exe = build.build_harness("c14", ["c14_replay.c"], lib)
         model_check(ctx, rd)
-        histories = generate(ctx, rd)
-        missing = [o for o in ALPHABET if not any(st["op"]["name"] == o for h in histories for st in h)]
+        plan = _gen_plan(ctx)
+        offsets, o = [], 0
+        for kinds, num, maxdim in plan:
+            offsets.append(o)
+            o += num
+        first = {}
+
+        def chunk(i):
+            kinds, num, maxdim = plan[i]
+            r, hs = gen_one(ctx, rd, i, kinds, num, maxdim)
+            results = replay_histories(ctx, rd, exe, hs, label="c%d" % i, parts=1)
+            if i == 0:
+                first["h"], first["r"] = hs, results
+            return summarise(hs, results, offsets[i])
+
+        total = Tally()
+        with ThreadPoolExecutor(max(1, min(len(plan) + 1, JOBS))) as ex:
+            ref = ex.submit(refinement_run, ctx, rd)
+            for t in ex.map(chunk, range(len(plan))):
+                total.add(t)
+            rr = ref.result()
+        ctx.steps["gen_refines_next"] = dict(behaviours=10 if ctx.quick else 100, depth=40, wall_s=round(rr.wall, 2), pool=3, MaxDim=3)
+        ctx.steps["gen"] = dict(runs=len(plan), histories=total.histories, calls=total.calls_generated, depth=40, pool=4,
+                                plan=[dict(kinds=k, histories=n, MaxDim=d) for k, n, d in plan])
+        ctx.cov["transitions"] += total.calls_generated
+        missing = [o_ for o_ in ALPHABET if total.gen_ops[o_] == 0]
         if missing:
             raise InfraError("generated histories never call: %s" % missing)
-        ctx.note("generated %d histories / %d calls over %d operations of the alphabet" % (len(histories), sum(len(h) for h in histories), len(ALPHABET)))
-        results = replay_histories(ctx, rd, exe, histories)
-        okh, opmix, relmix, aborts, rets, nfail = judge(ctx, histories, results)
+        ctx.note("generated %d histories / %d calls over %d operations of the alphabet" % (total.histories, total.calls_generated, len(ALPHABET)))
+        nfail = report(ctx, total)
+        okh, opmix, relmix, aborts, rets = total.ok, total.opmix, total.relmix, total.aborts, total.rets
         ctx.traces(okh)
+        binding_selftest(ctx, rd, exe, first["h"], first["r"])
         ctx.cov["rule"] = ("a case is one generated history (40 calls over pools of 4 containers per kind) replayed call by call against the ASan/UBSan build; "
                            "evaluations = calls executed and compared with the model's post-state; non-trivial = the history contains at least one call whose operand "
                            "is shorter/longer/empty relative to the current dimension, a copy onto another shape, or an out-of-range accessor; distinct by call sequence")
@@ -451,15 +527,15 @@ def run(ctx):
         ctx.cov["op_mix"] = dict(opmix)
         ctx.cov["size_relations"] = dict(relmix)
         ctx.cov["out_of_range_accessors"] = dict(clean_abort=aborts, returned_unchanged=rets)
-        ctx.cov["histories"] = dict(replayed=len(histories), completed=okh, failed=nfail)
-        for hid in (0, len(histories) // 2):
-            ctx.sample(dict(history=hid, calls=[dict(name=s["op"]["name"], rel=s["op"]["rel"], a=s["op"]["a"]) for s in histories[hid][:6]]), 4)
+        ctx.cov["histories"] = dict(replayed=total.histories, completed=okh, failed=nfail)
+        for smp in total.samples[:4]:
+            ctx.sample(smp, 4)
         if sum(opmix.values()) == 0:
             raise InfraError("no call was replayed")
         if aborts + rets == 0:
             raise InfraError("no out-of-range accessor was exercised")
         ctx.note("replayed %d histories (%d completed), %d calls, out-of-range accessors: %d clean aborts, %d safe returns"
-                 % (len(histories), okh, sum(opmix.values()), aborts, rets))
+                 % (total.histories, okh, sum(opmix.values()), aborts, rets))
     finally:
         shutil.rmtree(rd, ignore_errors=True)
 
@@ -474,7 +550,9 @@ def replay(ctx, body):
         exe = build.build_harness("c14", ["c14_replay.c"], lib)
         histories = [case["history"]]
         results = replay_histories(ctx, rd, exe, histories, label="stored", parts=1)
-        okh, opmix, relmix, aborts, rets, nfail = judge(ctx, histories, results)
+        t = summarise(histories, results)
+        report(ctx, t)
+        okh = t.ok
         ctx.traces(okh)
         ctx.cov["rule"] = "re-execution of one stored history prefix against the current tree"
         ctx.sample(dict(calls=[s["op"]["name"] for s in histories[0]][-8:]))
